@@ -70,7 +70,7 @@ func (w *World) Observe(opt ObsOpt, ordered func(path string) bool) string {
 	n, err := w.DB.Count(&Rec{})
 	fmt.Fprintf(&sb, "count=%d,%s\n", n, classify(err))
 	objs, err := w.DB.All(&Rec{})
-	fmt.Fprintf(&sb, "all=%s:%s\n", classify(err), objSet(objs))
+	fmt.Fprintf(&sb, "all=%s:%s\n", classify(err), w.objSetR(objs))
 	ids := append(append([]string{}, w.Slots...), NeverUUID)
 	for _, u := range ids {
 		r := &Rec{}
@@ -114,7 +114,7 @@ func (w *World) Observe(opt ObsOpt, ordered func(path string) bool) string {
 					q := Query{First: a, Rest: []Link{{Or: or, Atom: b}}}
 					s := w.evalImpl(q)
 					objs, err := s.Collect()
-					fmt.Fprintf(&sb, "q %s=%s:%s\n", q, classify(firstErr(s.Err(), err)), objIDs(objs, false))
+					fmt.Fprintf(&sb, "q %s=%s:%s\n", q, classify(firstErr(s.Err(), err)), w.objIDsR(objs, false))
 				}
 			}
 		}
@@ -171,6 +171,28 @@ func classifyRead(err error) string {
 	return c
 }
 
+// objSetR / objIDsR: like objSet / objIDs but ids are renamed by slot BEFORE sorting, so that
+// the rendering does not depend on the values of the ids (random with the real generator).
+func (w *World) objSetR(objs []sod.Object) string {
+	var items []string
+	for _, o := range objs {
+		items = append(items, w.rename(o.UUID())+"="+jsonOf(o))
+	}
+	sort.Strings(items)
+	return strings.Join(items, ";")
+}
+
+func (w *World) objIDsR(objs []sod.Object, keepOrder bool) string {
+	var items []string
+	for _, o := range objs {
+		items = append(items, w.rename(o.UUID()))
+	}
+	if !keepOrder {
+		sort.Strings(items)
+	}
+	return strings.Join(items, ",")
+}
+
 func objSet(objs []sod.Object) string {
 	var items []string
 	for _, o := range objs {
@@ -194,7 +216,7 @@ func objIDs(objs []sod.Object, keepOrder bool) string {
 func (w *World) obsQuery(sb *strings.Builder, path, op string, probe interface{}, keepOrder bool) {
 	s := w.DB.Search(&Rec{}, path, op, probe)
 	objs, err := s.Collect()
-	fmt.Fprintf(sb, "s %s %s %v=%s:%d:%s\n", path, op, probeStr(probe), classify(firstErr(s.Err(), err)), s.Len(), objIDs(objs, keepOrder))
+	fmt.Fprintf(sb, "s %s %s %v=%s:%d:%s\n", path, op, probeStr(probe), classify(firstErr(s.Err(), err)), s.Len(), w.objIDsR(objs, keepOrder))
 }
 
 func probeStr(p interface{}) string {
